@@ -154,9 +154,34 @@ func RunCloseScenario(r *rand.Rand, w io.Writer) (events int, hung bool) {
 			nd := nd
 			all.Add(1)
 			delay := time.Duration(r.Intn(300)) * time.Microsecond
+			report := ""
+			if r.Intn(4) == 0 {
+				report = []string{"append", "kill", "stop"}[r.Intn(3)]
+			}
 			go func() {
 				defer all.Done()
 				time.Sleep(delay)
+				if report != "" {
+					// a task reports on its own scope before it is done -- whether or not Close is already waiting for it
+					lg.emit(map[string]interface{}{"ev": "fail.start", "scope": nd.ID, "ctx": nd.Ctx, "what": report, "task": true})
+					panicked := false
+					func() {
+						defer func() {
+							if recover() != nil {
+								panicked = true
+							}
+						}()
+						switch report {
+						case "append":
+							nd.sc.AppendError(errors.New("task of " + nd.ID + " fails"))
+						case "kill":
+							nd.sc.Kill()
+						case "stop":
+							nd.sc.Stop()
+						}
+					}()
+					lg.emit(map[string]interface{}{"ev": "fail.end", "scope": nd.ID, "ctx": nd.Ctx, "what": report, "panic": panicked, "task": true})
+				}
 				lg.emit(map[string]interface{}{"ev": "done.start", "scope": nd.ID})
 				nd.sc.DoneTask()
 			}()
